@@ -56,7 +56,14 @@ func smallCap(r *mc.Run) {
 	if r.Mine() || r.ShardN == 1 {
 		eraCrossing(r)
 	}
-	r.Extra["rule"] = "cap-3 store, five client identities: all histories of 6 (8) steps with free client and receive-time order choices and <=2 (3) other deviations, canonical-state pruned; the C06 alphabet within 4 (5) deviations, also from stores where one client's eight-slot record has wrapped (8, 9, 11 prior exchanges); every transition judged by the eviction rule and the structural invariants"
+	// the free client / order exploration once more with the time origin three
+	// seconds before the NTP era rollover of 2036, so that histories cross it
+	saved := tsskit.T0
+	tsskit.T0 = time.Date(2036, 2, 7, 6, 28, 13, 0, time.UTC)
+	r.Explore(mc.Config{Name: "cap3/era-rollover", Bound: mc.Pick(r, 1, 2), Prune: true},
+		tsskit.Program(tsskit.Params{Clients: cl, Steps: mc.Pick(r, 5, 7), FreeClientRx: true, RxKinds: 3, Prune: true}, nil))
+	tsskit.T0 = saved
+	r.Extra["rule"] = "cap-3 store, five client identities: all histories of 6 (8) steps with free client and receive-time order choices and <=2 (3) other deviations, canonical-state pruned; the C06 alphabet within 4 (5) deviations, also from stores where one client's eight-slot record has wrapped (8, 9, 11 prior exchanges); the same exploration with the time origin 3 s before the 2036 era rollover; every transition judged by the eviction rule and the structural invariants"
 }
 
 // realCap: the shipped constant. Fill the store with 2^20 clients in three
